@@ -14,6 +14,7 @@ var (
 	fOut    = flag.String("verif.out", "", "trace file (ND-JSON)")
 	fEvents = flag.String("verif.events", "", "comma separated list of event types to record (empty = all)")
 	fMode   = flag.String("verif.mode", "scenarios", "driver mode")
+	fWork   = flag.String("verif.work", "", "directory for scenario working directories (default: the system temp dir)")
 )
 
 func TestVerif(t *testing.T) {
